@@ -36,7 +36,12 @@ def scenarios(ctx):
     fam += take(c04.scenarios(sub), 14)
     fam += take(c05.scenarios(sub), 8)
     fam += take(c06.scenarios(sub), 29)
-    fam += take(c08.scenarios(sub), 10)
+    c08all = c08.scenarios(sub)
+    fam += take(c08all, 10)
+    # always: a fault reported while a reset shuts the environment down, then a generation that fails on its own
+    # (InitRuntimeDone / the error answer must carry the new generation's own first fault)
+    fam += [x for x in c08all if x.get("meta", {}).get("prefix") == "ext-shutdown-error"
+            and x.get("meta", {}).get("suffix") in ("crash", "init-crash") and x not in fam]
     fam += take(c09.scenarios(sub), 14)
     out = []
     for i, s in enumerate(fam):
